@@ -391,3 +391,22 @@ PROPS['C04'] = dict(
           'B over 12 RPC kinds, k in 0..11', env={'VERIF_SLICE': str(i)}, no_validate=True)
         for i, n in enumerate(_C04_RPCS)
     ])
+
+
+_C08_KINDS = ['suggest', 'get_trial', 'complete', 'add_measurement', 'stop', 'delete_trial', 'trials', 'optimal_trials',
+              'set_state', 'add_trial', 'parameters', 'delete_study']
+PROPS['C08'] = dict(
+    level='model_checking',
+    encoded=['clients.Study/Trial', 'vizier_client.VizierClient', 'vizier_server.DefaultVizierServer/'
+             'DistributedPythiaVizierServer', 'VizierServicer', 'PythiaServicer', 'ServicePolicySupporter', 'stubs_util',
+             'grpc_util.handle_exception', 'real grpc on localhost'],
+    bounds='one client-level call (12 kinds) after a pre-state: study ACTIVE/ABORTED/COMPLETED, trial 1 absent or in any of 5 '
+           'states, optional completed trial 2, target trial existing/missing; RAM and SQL(in-memory) datastores; the three '
+           'deployments; the readable trial list afterwards is part of the observation',
+    outside='client programs longer than one call after the pre-state; TLS / remote hosts; early-stopping advisory answers',
+    obligations=[
+        O('C08.%s' % n, 'harness.c08_deploy', 'client_call', 240, 900,
+          'client call %s: same result / client-level exception class and same readable state in the in-process, gRPC and '
+          'gRPC+separate-Pythia deployments' % n, env={'VERIF_SLICE': str(i)}, no_validate=True)
+        for i, n in enumerate(_C08_KINDS)
+    ])
